@@ -29,6 +29,17 @@ fixed(['C07'], '84b6c95', 'syncLPRational() / real-only exact solves copied the 
 fixed(['C14'], 'bd14627', 'readBasis() built default names x0, x0x1, x0x1x2, ... so basis files written with default names were rejected')
 fixed(['C07', 'C20'], '6ed0c9c', 'mpq_t array overloads of LPRowSetBase/LPColSetBase::add() did not grow scaleExp: heap-buffer-overflow in a later remove()')
 
+fixed(['C13', 'C01'], '289d1ce', 'readLPF() (real and rational) leaked the internally created NameSet objects (placement new without destructor call)')
+fixed(['C15'], '8545d4c', 'setRealParam() accepted NaN for every real parameter (stored, or SIGFPE in GMP for feastol/opttol/infty/maxscaleincr)')
+fixed(['C15'], '58e96b2', 'rejected setIntParam(SIMPLIFIER, PAPILO) in a non-PaPILO build still re-pointed the active simplifier')
+fixed(['C15'], '7ed6134', 'resetSettings() did not reset the random seed')
+fixed(['C15', 'C13'], '8678150', 'settings parsers stepped over the terminating NUL of a line ending after the type or the name')
+fixed(['C15', 'C13'], '309920a', 'std::stoi/stod/stoul exceptions escaped from loadSettingsFile()/parseSettingsString()')
+fixed(['C15', 'C13'], 'deb3b05', 'std::stod exception escaped from parseSettingsString() for real parameters')
+fixed(['C15'], '1d863e0', 'settings parsers accepted any non-numeric text as the boolean value false')
+fixed(['C15'], 'e1b81b2', 'settings parsers accepted any uint parameter name starting with random_seed')
+fixed(['C15'], 'dc35f91', 'leastsq_maxrounds / leastsq_acrcy were applied only if the least squares scaler was currently selected')
+
 # ------------------------------------------------------------------ open findings
 UND = r'(ABORT_CYCLING|RUNNING|UNKNOWN|ERROR|SINGULAR)'
 # --- simplex core
@@ -76,5 +87,14 @@ open_(['C08'], 'reduced-class:{}', 'reduced LP is unbounded/infeasible (even rel
       repro='findings/C08_reduced_unbounded.lp')
 # --- file I/O
 open_(['C14', 'C12', 'C09'], r'(exception\.[A-Za-z]+\.XMPSWR02.*|leak:SoPlexBase::wri.*)', 'the MPS writer throws SPxInternalCodeException("XMPSWR02 This should never happen") for a free row (lhs=-inf, rhs=+inf) instead of writing it or returning false; the unscaled LP copy made by writeFile() leaks on that path', regex=True)
+# entries contributed by the delegated harness checks (one fragment per property, same format)
+import glob
+for frag in sorted(glob.glob(os.path.join(V, 'known_findings.d', '*.json'))):
+    try:
+        for e in json.load(open(frag)).get('findings', []):
+            e.setdefault('status', 'open')
+            F.append(e)
+    except Exception as ex:
+        print('cannot read', frag, ex)
 json.dump(dict(findings=F), open(os.path.join(V, 'known_findings.json'), 'w'), indent=1)
 print('wrote', len(F), 'entries')
